@@ -42,7 +42,7 @@ class C13(Prop):
             "Connected. Each abandonment is one evaluation.")
     assumptions = ("socket 'released' = close() called or the object finalised; selector released = its close() called",
                    "CPython reference counting finalises a dropped generator at once (gc.collect() is run before a leak is reported)")
-    examples = {"quick": 160, "thorough": 2400}
+    examples = {"quick": 320, "thorough": 3200}
 
     def strategy(self, tier):
         small = gen.weighted([(3, gen.data_msg(big=False)), (3, gen.control_msg(("ping",))), (1, gen.control_msg(("pong",)))])
